@@ -13,6 +13,7 @@ import (
 	"github.com/bbockelm/cedar/client/sharedport"
 	"github.com/bbockelm/cedar/security"
 	"github.com/bbockelm/cedar/stream"
+	"github.com/bbockelm/cedar/verifhook"
 	"github.com/bbockelm/cedar/version"
 )
 
@@ -482,6 +483,13 @@ func dialBrokerWith(ctx context.Context, brokerAddr, clientName string, dialer B
 			return nil, fmt.Errorf("ccb: dialing shared-port broker %s: %w", brokerAddr, err)
 		}
 		s = st
+	} else if vd := verifhook.Dialer(); vd != nil {
+		// verif build only: dial through the simulated network.
+		conn, err := vd(ctx, "tcp", addrInfo.ServerAddr)
+		if err != nil {
+			return nil, fmt.Errorf("ccb: dialing broker %s: %w", brokerAddr, err)
+		}
+		s = stream.NewStream(conn)
 	} else {
 		d := net.Dialer{}
 		conn, err := d.DialContext(ctx, "tcp", addrInfo.ServerAddr)
@@ -566,6 +574,18 @@ func newReverseListener(opts DialOptions) (net.Listener, string, error) {
 	listenAddr := opts.ListenAddr
 	if listenAddr == "" {
 		listenAddr = ":0"
+	}
+	if vl := verifhook.Listener(); vl != nil {
+		// verif build only: listen on the simulated network.
+		vln, err := vl("tcp", listenAddr)
+		if err != nil {
+			return nil, "", fmt.Errorf("ccb: failed to listen for reverse connection: %w", err)
+		}
+		vAddr := opts.MyAddress
+		if vAddr == "" {
+			vAddr = sinfulFromAddr(vln.Addr().String())
+		}
+		return vln, vAddr, nil
 	}
 	ln, err := net.Listen("tcp", listenAddr)
 	if err != nil {
